@@ -592,7 +592,7 @@ def stride_folds(res, tier, okx):
     (located by the worker), and model/Rewrites.v fold_conditions - evaluated by the extracted model with Vela's own SAME
     padding computation before and after - must hold"""
     import tempfile
-    n = 200 if tier == "quick" else 4000
+    n = 600 if tier == "quick" else 6000
     rng = random.Random("c01fold/%d" % vlib.seed())
     cases = []
     while len(cases) < n:
